@@ -236,10 +236,13 @@ func c11Musk(c *core.Ctx) {
 		if run.States == nil {
 			run.States = [][]float64{{0, 0, 0}}
 		}
-		Q, _, err := runWindows(run, cuts)
+		Q, fin, err := runWindows(run, cuts)
 		if err != nil {
 			c.Violate("prepare", model, err.Error())
 			return
+		}
+		if c.R.Bool(0.25) {
+			CheckEmptyRun(c, model, run.Sets, fin)
 		}
 		if fromSteady {
 			for t := 0; t < T; t++ {
@@ -409,6 +412,10 @@ func c11Lag(c *core.Ctx) {
 		states = out.States
 		pos += l
 		c.Count("lag_segments", 1)
+	}
+	if c.R.Bool(0.25) && len(states) > 0 {
+		// an empty window delays nothing and keeps the buffer
+		CheckEmptyRun(c, model, []PSet{{{float64(lag)}}}, states)
 	}
 }
 
